@@ -187,7 +187,7 @@ def run(ctx):
     for n, anc in hir.walk(body):
         if n.get("k") == "Closure" and "timer" in roles and n.get("def") == roles["timer"]["path"]:
             spawn_g = [(hir.fmt(x[1], 60), x[2]) for x in (hir.guards_of(n, body, sym) or []) if x[0] == "if"]
-    ctx.check("C13.A5", "timer-armed-iff-budget-and-not-infinite", ("!infinite", True) in spawn_g and any(t.startswith("let(v1::Some, time") for t, p in spawn_g),
+    ctx.check("C13.A5", "timer-armed-iff-budget-and-not-infinite", ("infinite", False) in spawn_g and any(t.startswith("let(v1::Some, time") for t, p in spawn_g),
               fn=GO, file=fn["file"], what="the timer must be armed exactly when a budget exists and `infinite` was not given", found=spawn_g)
     # A6: the budget is *enforced*: the flag the timer clears is observed at every interior node and an abort unwinds at once
     from . import p07
